@@ -3,6 +3,7 @@ package main
 import (
 	"errors"
 	"fmt"
+	"os"
 	"regexp"
 	"runtime/debug"
 	"strings"
@@ -260,7 +261,7 @@ func (p *c08) Enumerate(tier string) [][]int32 {
 	}
 	for kind := 0; kind < nestKinds; kind++ {
 		for _, depth := range []int32{10, 100, 1000, 5000, 20000, 50000} {
-			out = append(out, []int32{4, int32(kind), depth})
+			out = append(out, []int32{4, int32(kind), depth - 1, 1}) // (4th draw = 1: keep the depth as given)
 		}
 	}
 	return out
@@ -367,7 +368,7 @@ func (p *c08) usable(o *Outcome, ev *c08Eval, text string, opt bool, after strin
 	}
 }
 
-const nestKinds = 14
+const nestKinds = 18
 
 func nested(kind int, n int) string {
 	rep := strings.Repeat
@@ -398,8 +399,37 @@ func nested(kind int, n int) string {
 		return "x = [" + rep("1, ", n) + "1]; return len(x);"
 	case 12:
 		return rep("while (x < 1) { ", n) + "x = 1;" + rep(" }", n) + " return x;"
-	default:
+	case 13:
 		return rep("switch (1) { case 1 { ", n) + "x = 1;" + rep(" } }", n) + " return x;"
+	case 14:
+		// more distinct constants than a 16-bit operand can index
+		var sb strings.Builder
+		sb.WriteString("x = [")
+		// (constant-pool insertion is quadratic in the engine, so this stays
+		// below the 65535 boundary in the table; VERIF_C08_BIG=1 lifts it)
+		m := n + n/2
+		if m > 6000 && os.Getenv("VERIF_C08_BIG") == "" {
+			m = 6000
+		}
+		for i := 0; i < m; i++ {
+			fmt.Fprintf(&sb, "%d, ", 70000+i)
+		}
+		sb.WriteString("1]; return x[0] + len(x);")
+		return sb.String()
+	case 15:
+		// a block longer than a 16-bit jump offset can span
+		return "y = 0; if (y > 1) { " + rep("y = y + 1; ", n/2+1) + "} else { y = 7; } while (y < 9) { " + rep("y++; ", 3) + "} return y;"
+	case 16:
+		// a function body and a foreach body longer than 64 KB of bytecode
+		return "function big(a) { " + rep("a = a + 1; ", n/3+1) + "return a; } t = 0; foreach v in [1, 2] { " + rep("t = t + v; ", n/3+1) + "} return big(t);"
+	default:
+		// very many string constants and function definitions
+		var sb strings.Builder
+		for i := 0; i < n/20+1; i++ {
+			fmt.Fprintf(&sb, "function f%d() { return \"s%d\"; } ", i, i)
+		}
+		sb.WriteString("return f0();")
+		return sb.String()
 	}
 }
 
